@@ -56,6 +56,9 @@ def run(prop, tier, seed, replay=None):
         live = [{"kind": "lifecycle", "id": len(scen) + k, "steps": [{"op": "Backlog", "stop": "behind"}]} for k in range(3 if tier == "quick" else 30)]
         p_live.harness(v, prop, live, parallel=3, timeout=90)
         scen = scen + live
+    if not replay or scen[0].get("kind") == "congestion":
+        ncg = congestion(v, tier, seed, scen if replay else None)
+        scen = scen + [{"steps": []}] * 0
     v.cov["traces_validated_against_impl"] = len(scen)
     v.cov["evaluations"] = len(scen)
     v.cov["distinct_nontrivial"] = len({json.dumps(s["steps"], sort_keys=True) for s in scen})
@@ -106,4 +109,78 @@ def payload_check(v, tier, seed, scen=None):
                             "rule": "Upload.tla behaviours on the real upload handlers; every Piece payload compared with the verified content of the requested range"}
     if len(scen) > 100 and served < 50:
         raise Internal("upload payload check: only %d pieces served (vacuous)" % served)
+    return len(scen)
+
+
+def congestion(v, tier, seed, scen=None):
+    """Congestion.tla: a remote that stops reading; bound to the real handlers with a writer channel of WCap slots."""
+    if scen is None:
+        r = run_tlc("Congestion", "Congestion_mc.cfg", workers=8, timeout=1800)
+        require_ok(r, "Congestion model checking")
+        v.add_tlc("Congestion_mc.cfg", r)
+        r = run_tlc("Congestion", "Congestion_shipped.cfg", workers=4, timeout=600)
+        if r.violation not in ("ChokedHasNoQueue", "NoStaleService"):
+            raise Internal("Congestion_shipped.cfg: the shipped deviation is not refuted (%s / %s)" % (r.violation, r.error))
+        os.unlink(r.outfile)
+        r = run_tlc("MCCongestion", "Congestion_edges.cfg", workers=1, timeout=900)
+        require_ok(r, "Congestion edge dump")
+        g = vlib.Graph.from_result(r, lambda st: not st["interested"] and not st["unchoking"] and not st["stalled"] and st["backlog"] == 0
+                                   and not st["dead"] and st["queue"] == [])
+        os.unlink(r.outfile)
+        rng = random.Random(seed)
+        walks, unc = g.covering_walks(rng, maxlen=40)
+        if unc or not g.inits:
+            raise Internal("congestion edge dump: %d edges unreachable" % unc)
+        if tier != "quick":
+            walks += g.random_walks(rng, 3000, maxlen=40)
+        v.cov["congestion_graph"] = {"states": len(g.states), "edges": g.nedges, "walks": len(walks)}
+        scen = []
+        for i, w in enumerate(walks):
+            sc = g.scenario(w, "")
+            sc["kind"], sc["id"] = "congestion", i
+            scen.append(sc)
+        # the walks of the specification with the shipped deviation, as input sequences only: they steer towards the
+        # requests that a congested choke leaves behind
+        r = run_tlc("MCCongestion", "Congestion_edges_shipped.cfg", workers=1, timeout=900)
+        if r.error:
+            raise Internal("Congestion edge dump (shipped): %s" % r.error)
+        g2 = vlib.Graph.from_result(r, lambda st: not st["interested"] and not st["unchoking"] and not st["stalled"] and st["backlog"] == 0
+                                    and not st["dead"] and st["queue"] == [])
+        os.unlink(r.outfile)
+        walks2, _ = g2.covering_walks(rng, maxlen=40)
+        for w in walks2:
+            sc = g2.scenario(w, "")
+            sc["kind"], sc["id"], sc["stimuli"] = "congestion", len(scen), True
+            scen.append(sc)
+        if len(scen) < 100:
+            raise Internal("Congestion: only %d walks" % len(scen))
+    vh = vlib.build_harness()
+    wd = vlib.scratch("cong-")
+    sf, rf = os.path.join(wd, "scen.ndjson"), os.path.join(wd, "res.ndjson")
+    with open(sf, "w") as f:
+        for sc in scen:
+            f.write(json.dumps(sc, separators=(",", ":")) + "\n")
+    out, err = vlib.run_harness(vh, ["upload", "-in", sf, "-out", rf, "-parallel", "14", "-timeout", "120"], timeout=7200)
+    log(out.strip())
+    served = 0
+    for line in open(rf):
+        res = json.loads(line)
+        sc = scen[res["index"]]
+        if res.get("crash") or res.get("hang"):
+            st = res.get("stderr", "")
+            first = [x for x in st.splitlines() if x.startswith(("panic", "fatal"))][:1]
+            v.violation("upload-crash", "the process crashed/hung in congestion scenario %s: %s" % (sc["id"], first), sc)
+            continue
+        o = res["out"]
+        if o.get("note"):
+            raise Internal("congestion scenario %s: %s" % (sc["id"], o["note"]))
+        for vi in o.get("violations") or []:
+            v.violation(vi["key"], vi["what"] + " (congestion scenario %s)" % sc["id"], sc)
+        for nc in o.get("nonconf") or []:
+            v.warn("nonconformance: congestion scenario %s: %s" % (sc["id"], nc))
+        served += o.get("pieces_served", 0)
+    v.cov["congestion"] = {"behaviours": len(scen), "pieces_served": served,
+                           "rule": "walks covering every edge of the TLC state graph of Congestion.tla, on the real handlers with a 4-slot writer channel the harness stops reading"}
+    if len(scen) > 50 and served < 20:
+        raise Internal("congestion: only %d pieces served (vacuous)" % served)
     return len(scen)
